@@ -26,7 +26,7 @@ func init() {
 	add("C06",
 		Mutation{Name: "return-alias-names-cte-column", File: "cypher/models/pgsql/translate/aggregate_traversal_count.go",
 			Old: "\t\t\tExpression: pgsql.CompoundIdentifier{aggregateRankedCTE, pgsql.Identifier(shape.CountAlias)},\n\t\t\tAlias:      pgsql.AsOptionalIdentifier(pgsql.Identifier(shape.ReturnCountAlias)),",
-			New: "\t\t\tExpression: pgsql.CompoundIdentifier{aggregateRankedCTE, pgsql.Identifier(shape.ReturnCountAlias)},\n\t\t\tAlias:      pgsql.AsOptionalIdentifier(pgsql.Identifier(shape.ReturnCountAlias)),", Expect: "C06-R8-alias-internal-use|Translator.aggregateTraversalCountQuery:ReturnCountAlias"},
+			New: "\t\t\tExpression: pgsql.CompoundIdentifier{aggregateRankedCTE, pgsql.Identifier(shape.ReturnCountAlias)},\n\t\t\tAlias:      pgsql.AsOptionalIdentifier(pgsql.Identifier(shape.ReturnCountAlias)),", Expect: "C06-R8-alias-internal-use|ReturnCountAlias→element of CompoundIdentifier"},
 	)
 	add("C07",
 		Mutation{Name: "keyword-table-loses-yield", File: "cypher/models/cypher/property_key.go",
